@@ -1359,4 +1359,148 @@ theorem addWitnessHTLCToOutputs_accepted (env : Env) (sign : Key → Msg → Sig
   rw [verifyBlindedMessages_of_shared hshared]
   exact checkOutputs_htlc_helper env sign hsign k s0 keys pre hkind hk hopen outs outs' h
 
+/-! ## the threshold as an explicit injective assignment of positions -/
+
+theorem assigned_zero (valid : Sig → Key → Msg → Bool) (m : Msg) (sigs : List Sig) (keys : List Key) :
+    Assigned valid m sigs keys 0 := ⟨[], rfl, List.Pairwise.nil, by simp⟩
+
+theorem assigned_skip {valid : Sig → Key → Msg → Bool} {m : Msg} {s : Sig} {rest : List Sig} {keys : List Key} {n : Nat}
+    (h : Assigned valid m rest keys n) : Assigned valid m (s :: rest) keys n := by
+  obtain ⟨pairs, hl, hp, hv⟩ := h
+  refine ⟨pairs.map (fun p => (p.1 + 1, p.2)), by simp [hl], ?_, ?_⟩
+  · exact hp.map _ (fun a b ⟨h1, h2⟩ => ⟨by simp; exact h1, h2⟩)
+  · intro p hp'
+    obtain ⟨q, hq, rfl⟩ := List.mem_map.1 hp'
+    simpa using hv q hq
+
+/-- position in `keys` of position `x` of `keys.eraseIdx j` -/
+def liftIdx (j x : Nat) : Nat := if x < j then x else x + 1
+
+theorem getElem?_liftIdx (keys : List Key) (j x : Nat) : keys[liftIdx j x]? = (keys.eraseIdx j)[x]? := by
+  rw [List.getElem?_eraseIdx]; unfold liftIdx; split <;> rfl
+
+theorem assigned_take {valid : Sig → Key → Msg → Bool} {m : Msg} {s : Sig} {rest : List Sig} {keys : List Key} {n j : Nat} {k : Key}
+    (hj : keys[j]? = some k) (hvk : valid s k m = true) (h : Assigned valid m rest (keys.eraseIdx j) n) :
+    Assigned valid m (s :: rest) keys (n + 1) := by
+  obtain ⟨pairs, hl, hp, hv⟩ := h
+  refine ⟨(0, j) :: pairs.map (fun p => (p.1 + 1, liftIdx j p.2)), by simp [hl], ?_, ?_⟩
+  · rw [List.pairwise_cons]
+    constructor
+    · intro a ha
+      obtain ⟨q, _, rfl⟩ := List.mem_map.1 ha
+      refine ⟨by simp, ?_⟩
+      simp only [liftIdx]; split <;> omega
+    · refine hp.map _ (fun a b ⟨h1, h2⟩ => ⟨by simp; exact h1, ?_⟩)
+      simp only [liftIdx]; split <;> split <;> omega
+  · intro p hp'
+    rcases List.mem_cons.1 hp' with rfl | hp'
+    · exact ⟨s, k, by simp, hj, hvk⟩
+    · obtain ⟨q, hq, rfl⟩ := List.mem_map.1 hp'
+      obtain ⟨s', k', h1, h2, h3⟩ := hv q hq
+      exact ⟨s', k', by simpa using h1, by rw [getElem?_liftIdx]; exact h2, h3⟩
+
+/-- position in `keys.eraseIdx j` of position `x ≠ j` of `keys` -/
+def unliftIdx (j x : Nat) : Nat := if x < j then x else x - 1
+
+theorem getElem?_unliftIdx (keys : List Key) (j x : Nat) (hx : x ≠ j) : (keys.eraseIdx j)[unliftIdx j x]? = keys[x]? := by
+  rw [List.getElem?_eraseIdx]; unfold unliftIdx
+  by_cases h : x < j
+  · simp [h]
+  · have : ¬ (x - 1 < j) := by omega
+    simp only [h, this, if_false]
+    congr 1; omega
+
+theorem assigned_cons_cases {valid : Sig → Key → Msg → Bool} {m : Msg} {s : Sig} {rest : List Sig} {keys : List Key} {n : Nat}
+    (h : Assigned valid m (s :: rest) keys (n + 1)) :
+    Assigned valid m rest keys (n + 1) ∨
+      ∃ j k, keys[j]? = some k ∧ valid s k m = true ∧ Assigned valid m rest (keys.eraseIdx j) n := by
+  obtain ⟨pairs, hl, hp, hv⟩ := h
+  by_cases h0 : ∃ p ∈ pairs, p.1 = 0
+  · right
+    obtain ⟨p, hpm, hp0⟩ := h0
+    obtain ⟨l1, l2, rfl⟩ := List.append_of_mem hpm
+    obtain ⟨s', k, hs', hk, hvk⟩ := hv p (by simp)
+    rw [hp0] at hs'
+    simp only [List.getElem?_cons_zero, Option.some.injEq] at hs'
+    subst hs'
+    rw [List.pairwise_append, List.pairwise_cons] at hp
+    obtain ⟨hp1, ⟨hp2a, hp2⟩, hp12⟩ := hp
+    have hother : ∀ q ∈ l1 ++ l2, q.1 ≠ 0 ∧ q.2 ≠ p.2 := by
+      intro q hq
+      rcases List.mem_append.1 hq with hq | hq
+      · have := hp12 q hq p (by simp); rw [hp0] at this; exact this
+      · have := hp2a q hq; rw [hp0] at this; exact ⟨fun e => this.1 e.symm, fun e => this.2 e.symm⟩
+    have hpw : (l1 ++ l2).Pairwise (fun a b => a.1 ≠ b.1 ∧ a.2 ≠ b.2) := by
+      rw [List.pairwise_append]
+      exact ⟨hp1, hp2, fun a ha b hb => hp12 a ha b (by simp [hb])⟩
+    refine ⟨p.2, k, hk, hvk, (l1 ++ l2).map (fun q => (q.1 - 1, unliftIdx p.2 q.2)), ?_, ?_, ?_⟩
+    · simp at hl ⊢; omega
+    · rw [List.pairwise_map]
+      refine hpw.imp_of_mem ?_
+      intro a b ha hb ⟨h1, h2⟩
+      have ha' := hother a ha
+      have hb' := hother b hb
+      refine ⟨by simp; omega, ?_⟩
+      simp only [unliftIdx]; split <;> split <;> omega
+    · intro q hq
+      obtain ⟨q', hq', rfl⟩ := List.mem_map.1 hq
+      obtain ⟨s'', k'', h1, h2, h3⟩ := hv q' (by
+        rcases List.mem_append.1 hq' with h | h
+        · simp [h]
+        · simp [h])
+      have hq0 := hother q' hq'
+      refine ⟨s'', k'', ?_, ?_, h3⟩
+      · have : q'.1 = (q'.1 - 1) + 1 := by omega
+        rw [this] at h1
+        simpa using h1
+      · simp only; rw [getElem?_unliftIdx keys p.2 q'.2 hq0.2]; exact h2
+  · left
+    have hne : ∀ q ∈ pairs, q.1 ≠ 0 := fun q hq e => h0 ⟨q, hq, e⟩
+    refine ⟨pairs.map (fun q => (q.1 - 1, q.2)), by simp [hl], ?_, ?_⟩
+    · rw [List.pairwise_map]
+      refine hp.imp_of_mem ?_
+      intro a b ha hb ⟨h1, h2⟩
+      have := hne a ha; have := hne b hb
+      exact ⟨by simp; omega, h2⟩
+    · intro q hq
+      obtain ⟨q', hq', rfl⟩ := List.mem_map.1 hq
+      obtain ⟨s'', k'', h1, h2, h3⟩ := hv q' hq'
+      have := hne q' hq'
+      refine ⟨s'', k'', ?_, h2, h3⟩
+      have e : q'.1 = (q'.1 - 1) + 1 := by omega
+      rw [e] at h1
+      simpa using h1
+
+/-- The two formulations of the threshold coincide: sublist/sub-permutation pairing = injective assignment of positions. -/
+theorem signed_iff_assigned (valid : Sig → Key → Msg → Bool) (m : Msg) :
+    ∀ (sigs : List Sig) (keys : List Key) (n : Nat), Signed valid m sigs keys n ↔ Assigned valid m sigs keys n := by
+  intro sigs
+  induction sigs with
+  | nil =>
+    intro keys n
+    cases n with
+    | zero => exact ⟨fun _ => assigned_zero _ _ _ _, fun _ => signed_zero _ _ _ _⟩
+    | succ n =>
+      constructor
+      · intro h; have := (signed_le h).1; simp at this
+      · rintro ⟨pairs, hl, _, hv⟩
+        match pairs, hl with
+        | p :: _, _ =>
+          obtain ⟨s, _, hs, _⟩ := hv p (by simp)
+          simp at hs
+  | cons s rest ih =>
+    intro keys n
+    cases n with
+    | zero => exact ⟨fun _ => assigned_zero _ _ _ _, fun _ => signed_zero _ _ _ _⟩
+    | succ n =>
+      constructor
+      · intro h
+        rcases signed_cons_cases h with h | ⟨j, k, hj, hv, h⟩
+        · exact assigned_skip ((ih keys (n + 1)).1 h)
+        · exact assigned_take hj hv ((ih _ n).1 h)
+      · intro h
+        rcases assigned_cons_cases h with h | ⟨j, k, hj, hv, h⟩
+        · exact signed_skip ((ih keys (n + 1)).2 h)
+        · exact signed_take hj hv ((ih _ n).2 h)
+
 end Gonuts.Lemmas.Spend
